@@ -135,6 +135,9 @@ type observer struct {
 	batch    int                                          // >1: records are buffered and fed with AddRawRecords
 	buf      []*consensusproto.RawRecordWithId
 	fault    *faultStorage
+	dbf      *faults // any-store behind a fault-injecting wrapper: each write call of AddRawRecord can fail
+	writes   int     // write calls one AddRawRecord makes (learned from the last fault-free add)
+	nextFail int
 }
 
 func (o *observer) verifier(c *cast) recordverifier.AcceptorVerifier {
@@ -179,6 +182,10 @@ func (x *c03) memObserver(name string, keys *accountdata.AccountKeys, validate b
 }
 
 func (x *c03) dbObserver(name string, keys *accountdata.AccountKeys, validate bool, batch int) (*observer, error) {
+	return x.dbObserverF(name, keys, validate, batch, false)
+}
+
+func (x *c03) dbObserverF(name string, keys *accountdata.AccountKeys, validate bool, batch int, faulty bool) (*observer, error) {
 	ctx := context.Background()
 	dir, err := os.MkdirTemp("", "verif-acl-*")
 	if err != nil {
@@ -190,6 +197,11 @@ func (x *c03) dbObserver(name string, keys *accountdata.AccountKeys, validate bo
 		return nil, err
 	}
 	x.dbs = append(x.dbs, db)
+	var fl *faults
+	if faulty {
+		fl = &faults{}
+		db = &faultDB{DB: db, f: fl}
+	}
 	hs, err := headstorage.New(ctx, db)
 	if err != nil {
 		return nil, err
@@ -198,7 +210,7 @@ func (x *c03) dbObserver(name string, keys *accountdata.AccountKeys, validate bo
 	if err != nil {
 		return nil, err
 	}
-	o := &observer{name: name, keys: keys, validate: validate, batch: batch, st: st}
+	o := &observer{name: name, keys: keys, validate: validate, batch: batch, st: st, dbf: fl}
 	id := x.w.root.Id
 	o.litter = func(docId string, order int, raw []byte) error {
 		coll, err := db.Collection(ctx, id)
@@ -392,9 +404,52 @@ func (x *c03) deliver(b *built) {
 				}
 			}
 		}
+		if o.dbf != nil && o.writes > 0 && x.s.r.Chance(60) {
+			x.dbFault(o, b)
+		}
+		if o.dbf != nil {
+			o.dbf.arm(0)
+		}
 		err, pan := addSafely(o.l, b.raw)
 		if err != nil || pan != "" {
 			x.violate("accept-valid", fmt.Sprintf("%s rejected a record the validating list accepted: %s%s on %s", o.name, errEnum(err), pan, b.line()))
+		}
+		if o.dbf != nil && err == nil {
+			o.writes = o.dbf.count
+		}
+	}
+}
+
+// dbFault: the k-th write call that AddRawRecord makes on the real any-store (begin, insert of the
+// record, upsert of the head entry, commit — k cycles through all of them) fails. The record then
+// counts as rejected: AddRawRecord must report an error and live head, live state, stored head and
+// stored records must be exactly what they were; deliver() then adds the same record again without
+// a fault, which must succeed.
+func (x *c03) dbFault(o *observer, b *built) {
+	o.nextFail = o.nextFail%o.writes + 1
+	before := x.dump(o)
+	o.dbf.arm(o.nextFail)
+	err, pan := addSafely(o.l, b.raw)
+	fired := o.dbf.fired
+	o.dbf.arm(0)
+	after := x.dump(o)
+	x.s.r.Count("c03.db-fault." + strings.SplitN(fired, ":", 2)[0])
+	switch {
+	case fired == "":
+		return // fewer write calls than expected: nothing was injected
+	case pan != "":
+		x.violate("db-fault", fmt.Sprintf("%s: AddRawRecord panicked when its write call #%d (%s) failed: %s", o.name, o.nextFail, fired, pan))
+	case err == nil:
+		x.violate("db-fault", fmt.Sprintf("%s: AddRawRecord reported success although its write call #%d (%s) failed; list and storage now: %s", o.name, o.nextFail, fired, after))
+	case before != after:
+		x.violate("db-fault", fmt.Sprintf("%s: AddRawRecord failed (%v) at write call #%d (%s) but something changed: %s -> %s", o.name, err, o.nextFail, fired, before, after))
+	}
+	if err == nil || before != after {
+		// keep the walk going on a consistent replica
+		if st, e := o.reopen(); e == nil {
+			if l2, e2 := list.BuildAclListWithIdentity(o.keys, st, o.verifier(x.w.c)); e2 == nil {
+				o.l, o.st = l2, st
+			}
 		}
 	}
 }
@@ -544,6 +599,11 @@ func (s *session) walkC03(steps int, useDB bool) {
 	if useDB {
 		mk(x.dbObserver(fmt.Sprintf("account%d-client-anystore", member), s.c.acc[member], false, 1))
 		mk(x.dbObserver("node-validating-anystore", s.c.node, true, 1+r.Intn(3)))
+	}
+	s.c03walks++
+	if useDB || s.c03walks == 1 || r.Chance(12) { // the very first C03 walk has it, then a share
+
+		mk(x.dbObserverF("node-client-anystore-faulty", s.c.node, false, 1, true))
 	}
 	g := &gen{r: r, w: w}
 	g.s = w.snapshot(ref)
